@@ -97,6 +97,8 @@ class C16(Prop):
                 pool = outs + emits[:1]
                 if pool:
                     cfg["select"] = "**" if rng.random() < 0.2 else rng.sample(pool, rng.randint(1, min(3, len(pool))))
+                    if isinstance(cfg["select"], list) and emits and rng.random() < 0.4 and emits[0] not in cfg["select"]:
+                        cfg["select"] = cfg["select"] + [emits[0]]       # an ordering signal selected next to data outputs
                     if isinstance(cfg["select"], list):
                         plain = [k for k, _ in c["values"] if k not in outs and k not in cfg["select"]]
                         if rng.random() < 0.15 and plain:
@@ -195,6 +197,8 @@ class C16(Prop):
             # a selected ordering signal is present in the state but never returned; it does not count as missing
             if cfg["onMissing"] == "ignore" and obs["warnings"]:
                 return "on_missing=ignore emitted a warning"
+        ran_nodes = {f.split(":", 1)[1] for f, _ in obs.get("calls", [])}
+        produced_signals = {e for n in root["nodes"] if n["name"] in ran_nodes for e in n.get("emits", [])}
         if sel not in (None, "**") and cfg["onMissing"] == "error" and obs["status"] == "completed":
             have = {k for k, _ in obs["values"]}
             emits = {e for n in root["nodes"] for e in n.get("emits", [])}
@@ -207,8 +211,8 @@ class C16(Prop):
             missing = [s for s in sel if s not in have and s not in emits]
             if missing and obs["warnings"] != 1:
                 return f"on_missing=warn with missing {missing}: {obs['warnings']} warnings instead of exactly one"
-            if not missing and not any(s in emits for s in sel) and obs["warnings"]:
-                return "on_missing=warn warned although nothing was missing"
+            if not missing and all(s in produced_signals for s in sel if s in emits) and obs["warnings"]:
+                return "on_missing=warn warned although nothing was missing (a selected ordering signal whose producer ran is not missing)"
         # (e) nested graph exposes exactly its default selection
         for name, exposed in obs.get("inner_exposed", []):
             spec = next(n for n in root["nodes"] if n["name"] == name)
